@@ -24,15 +24,34 @@ const unixToInternal = (1969*365 + 1969/4 - 1969/100 + 1969/400) * 86400
 
 func init() {
 	reg("time.Now", func(in *Interp, fn *ssa.Function, args []Value) Value {
-		frozen := false
+		frozen, symbolic := false, false
 		for _, e := range in.Cfg.Execute {
 			if e == "clock:frozen" {
 				frozen = true
 			}
+			if e == "clock:symbolic" {
+				symbolic = true
+			}
+		}
+		if in.inInit > 0 {
+			// package initialisers (timex.initTime, ...) get a fixed instant
+			frozen = true
+		}
+		if symbolic && !frozen {
+			// one symbolic instant per path: `now` seconds after the Unix epoch,
+			// 0 <= now < 2^40, wall nanoseconds 0, UTC ("clock:symbolic")
+			now, ok := in.sideTab["clock.now"].(*term.Term)
+			if !ok {
+				now = in.Eng.Fresh("time.Now.unix", term.BV(64))
+				in.Eng.addPC(term.SLe(term.BVC(64, 0), now))
+				in.Eng.addPC(term.SLt(now, term.BVC(64, 1<<40)))
+				in.sideTab["clock.now"] = now
+			}
+			return StructV{[]Value{term.BVC(64, 0), term.Add(now, term.BVC(64, unixToInternal)), Ptr{}}}
 		}
 		if !frozen {
 			// a frozen clock is a modelling assumption: it must be asked for
-			panic(in.inconclusive("unmodelled call: time.Now (stub a repository-level clock seam, or add \"clock:frozen\" to \"execute\" in harness.json for a clock that stands still)"))
+			panic(in.inconclusive("unmodelled call: time.Now (stub a repository-level clock seam, or add \"clock:frozen\" (a clock that stands still) or \"clock:symbolic\" (one arbitrary instant per path) to \"execute\" in harness.json)"))
 		}
 		return StructV{[]Value{term.BVC(64, 0), term.BVC(64, uint64(fakeNowUnix+unixToInternal)), Ptr{}}}
 	})
